@@ -40,6 +40,7 @@ type GenOut struct {
 	Stack    string
 	TimedOut bool
 	Dir      string
+	Events   []generate.VerifTypeMapEvent // accesses to the generator's type map, in order
 }
 
 var genDirCounter int
@@ -132,8 +133,12 @@ func runGenerate(work string, p *Program, keepDir bool) *GenOut {
 	}
 	cfg := makeConfig(dir, p)
 	done := make(chan struct{})
+	var events []generate.VerifTypeMapEvent
+	generate.VerifTypeMapLog = func(ev generate.VerifTypeMapEvent) { events = append(events, ev) }
+	defer func() { generate.VerifTypeMapLog = nil }()
 	go func() {
 		defer close(done)
+		defer func() { out.Events = events }()
 		defer func() {
 			if r := recover(); r != nil {
 				out.Panic = r
